@@ -103,7 +103,9 @@ def parse_output(out):
 
 def classify(entry, src, rc, out, secs, timed_out):
     """-> dict(obligations: {label: discharged|failed|undecided}, detail...)"""
-    labels = list(entry.get("labels") or labels_of(src)) + list(entry.get("labels_extra", []))
+    primary = list(entry.get("labels") or labels_of(src))
+    extras = [l for l in entry.get("labels_extra", []) if l not in primary]
+    labels = primary + extras
     safety = f"K.{entry.get('id', entry['harness'])}.safety"
     p = parse_output(out)
     obl = {l: "discharged" for l in labels}
@@ -142,7 +144,7 @@ def classify(entry, src, rc, out, secs, timed_out):
         cov = p["covers"] or {"satisfied": 0, "total": 0, "unreachable": 0}
         ok = p["status"] == "failed" and p["failed"] and not non_abort and cov["total"] >= 1 and cov["satisfied"] == 0
         if not ok:
-            for l in labels:
+            for l in primary:
                 obl[l] = "failed"
             if non_abort:
                 obl[safety] = "failed"
@@ -152,7 +154,7 @@ def classify(entry, src, rc, out, secs, timed_out):
         hit = [f for f in p["failed"] if any(l in f["desc"] for l in labels)]
         cov = p["covers"] or {"satisfied": 0, "total": 0}
         if not (p["status"] == "failed" and hit and len(hit) == len(p["failed"]) and cov["satisfied"] >= 1):
-            for l in labels:
+            for l in primary:
                 obl[l] = "failed"
             reason = f"canary not refuted as expected: status={p['status']} failed={[f['desc'] for f in p['failed']][:4]} covers={cov}"
     elif expect == "released":
@@ -161,9 +163,15 @@ def classify(entry, src, rc, out, secs, timed_out):
         probe = [f for f in p["failed"] if "deallocated dynamic object" in f["desc"]]
         other = [f for f in p["failed"] if not (f["desc"].startswith("dereference failure") and "/verif/" in f["file"])]
         if not (p["status"] == "failed" and probe and not other):
-            for l in labels:
+            for l in primary:
                 obl[l] = "failed"
-            if other:
+            named = False
+            for f in other:
+                hit = [l for l in labels if l in f["desc"]]
+                for l in hit:
+                    obl[l] = "failed"
+                    named = True
+            if other and not named:
                 obl[safety] = "failed"
             reason = f"expected the probe read to hit a released allocation: status={p['status']} probe_hits={len(probe)} other_failures={[f['desc'] for f in other][:5]}"
     else:
